@@ -716,6 +716,9 @@ class Screen(BaseScreen, RealTerminal):
             x, y = canvas.cursor
             output += [set_cursor_position(x, y), escape.SHOW_CURSOR]
             self._cy = y
+        else:
+            # the output cursor stays on the last row drawn
+            self._cy = cy
 
         if self._resized:
             # handle resize before trying to draw screen
